@@ -226,8 +226,8 @@ theorem C03_pairing_scion (G : Nat → ExStamps) (H Srv : List Nat) (k : Nat)
     (evs : List (Event ScionDgram)) (a : Accepted) (n : Nat)
     (href : reference ≠ "") (hco : Coherent G H prev) (hsub : ∀ x ∈ H, x ∈ Srv)
     (a1 : A1 G Srv) (a2 : A2 G H)
-    (a4 : A4 (fun d : ScionDgram => d.srcIA = sc.remoteIA ∧ d.srcHost = sc.remoteHost ∧
-              d.dstIA = sc.localIA ∧ d.dstHost = sc.localHost) ScionDgram.payload G Srv k
+    (a4 : A4 (fun d : ScionDgram => d.srcIA = sc.remoteIA ∧ equalsIP d.srcHost sc.remoteHost = true ∧
+              d.dstIA = sc.localIA ∧ equalsIP d.dstHost sc.localHost = true) ScionDgram.payload G Srv k
             (mkRequest cfg prev reference now) evs)
     (hres : (exchangeSCION cfg sc prev reference now cTx1 evs).1 = .accepted a n) :
     Uniform G H k now cTx1 a ∧
